@@ -194,18 +194,72 @@ def _roots_sorted(py) -> bool:
     return sorted_first and only_ctor
 
 
+def _order_insensitive_use(py, n: ast.AST, depth: int = 0) -> bool:
+    """the value read at `n` is used in a way that does not depend on the order of its elements: a membership test, a set
+    construction / sort, a copy into an attribute of the same name (whose reads are judged in turn), a declaration, or - possibly
+    through a local, a display with `*`, chain()/product()/list() - the iterable of a loop whose body only performs commutative
+    updates"""
+    if depth > 4:
+        return False
+    cur = n
+    while cur in py.parents:
+        par = py.parents[cur]
+        if isinstance(par, ast.Compare) and any(isinstance(o, (ast.In, ast.NotIn)) for o in par.ops) and cur in par.comparators:
+            return True
+        if isinstance(par, ast.Call) and cur is not par.func:
+            last = call_name(par).split(".")[-1]
+            if last in ("set", "frozenset", "sorted", "len", "any", "all"):
+                return True
+            if last not in ("chain", "product", "list", "tuple", "iter"):
+                return False
+        elif isinstance(par, (ast.Starred, ast.List, ast.Tuple, ast.BinOp, ast.keyword)):
+            pass
+        elif isinstance(par, (ast.For, ast.comprehension)) and cur is par.iter:
+            if isinstance(par, ast.For):
+                return not body_sensitivity(py, par)[0]
+            comp = py.parents.get(par)
+            cpar = py.parents.get(comp)
+            return isinstance(comp, ast.SetComp) or (isinstance(cpar, ast.Call) and call_name(cpar).split(".")[-1] in (
+                "set", "frozenset", "sorted", "any", "all", "update", "len", "sum"))
+        elif isinstance(par, ast.AnnAssign):
+            return True               # the declaration of the field
+        elif isinstance(par, ast.Assign) and cur is par.value and len(par.targets) == 1:
+            t = par.targets[0]
+            if isinstance(t, ast.Attribute) and isinstance(n, ast.Attribute) and t.attr == n.attr:
+                return True           # copied under the same name: the reads of the copy are reads of `.extensions` as well
+            if isinstance(t, ast.Name):
+                fn = py.enclosing_function(par)
+                if fn is None:
+                    return False
+                loads = [x for x in ast.walk(fn) if isinstance(x, ast.Name) and x.id == t.id and isinstance(x.ctx, ast.Load)]
+                return bool(loads) and all(_order_insensitive_use(py, x, depth + 1) for x in loads)
+            return False
+        elif isinstance(par, ast.stmt):
+            return False
+        elif not isinstance(par, ast.expr):
+            return False
+        elif isinstance(par, (ast.Attribute, ast.Subscript, ast.JoinedStr, ast.FormattedValue)):
+            # `.extensions` inside a message / indexed: a message prints the list (order visible) - only f-strings of
+            # error messages do that today
+            return isinstance(par, (ast.JoinedStr, ast.FormattedValue)) and any(
+                isinstance(a, ast.Raise) for a in _ancestors(py, par))
+        cur = par
+    return False
+
+
+def _ancestors(py, n):
+    while n in py.parents:
+        n = py.parents[n]
+        yield n
+
+
 def _extensions_unordered_uses(py) -> bool:
     """every read of `.extensions` is a membership test, a set construction or feeds the glob product."""
     ok = True
     for mod, tree in py.modules.items():
         for n in ast.walk(tree):
             if isinstance(n, ast.Attribute) and n.attr == "extensions" and isinstance(n.ctx, ast.Load):
-                st = n
-                while st in py.parents and not isinstance(st, ast.stmt):
-                    st = py.parents[st]
-                t = ast.unparse(st)
-                if not any(k in t for k in ("set(", "chain(", "self.extensions = settings.extensions",
-                                            "fortran_extensions = ", " in ", "extensions: List")):
+                if not _order_insensitive_use(py, n):
                     ok = False
     return ok
 
